@@ -116,12 +116,15 @@ class Fmt:
 
 
 class FnInfo:
-    def __init__(self, name, params, pure, returns_value, coqname):
+    def __init__(self, name, params, pure, returns_value, coqname, kind=None):
         self.name = name
         self.params = params
         self.pure = pure
         self.returns_value = returns_value
         self.coqname = coqname
+        # "pure": total pv function; "res": may raise but touches no machine state;
+        # "M": state/exception monad
+        self.kind = kind or ("pure" if pure else "M")
 
 
 class Translator:
@@ -151,7 +154,14 @@ class Translator:
             self.fmt_env[p] = Fmt(None, None)  # parameter: (p_fmt, p_args)
         self.fmt_params = set(fmt_params)
         self.pure = True       # becomes False if a monadic construct is needed
-        self.monadic = True    # translate statements monadically? decided by caller
+        self.uses_state = False  # becomes True if machine state is touched
+        self.mode = "M"        # "M": state/exception monad; "R": exception monad only
+
+    def ret(self, t):
+        return ("ret %s" if self.mode == "M" else "rret %s") % t
+
+    def raise_kw(self):
+        return "raise" if self.mode == "M" else "rraise"
 
     def tmp(self, base="t"):
         self.fresh += 1
@@ -331,13 +341,18 @@ class Translator:
             if node.keywords or len(node.args) != len(info.params):
                 raise Unsupported(node, "call arity/keywords")
             b, ts = self.call_args(node.args, lazy)
-            if info.pure:
+            if info.kind == "pure":
                 return b, "(%s %s)" % (info.coqname, " ".join(ts))
             if lazy:
                 raise Unsupported(node, "effectful call in a conditionally evaluated position")
             v = self.tmp("r")
             self.pure = False
-            return b + [(v, "%s %s" % (info.coqname, " ".join(ts)))], v
+            app = "%s %s" % (info.coqname, " ".join(ts))
+            if info.kind == "res" and self.mode == "M":
+                app = "lift (%s)" % app
+            elif info.kind == "M" and self.mode == "R":
+                raise Unsupported(node, "state-dependent call in a state-free function")
+            return b + [(v, app)], v
         # vm.method(...)
         if isinstance(f, ast.Attribute) and self.is_vm(f.value) and f.attr in self.vm_methods:
             info = self.vm_methods[f.attr]
@@ -420,8 +435,9 @@ class Translator:
 
     def wrap(self, binds, body):
         out = body
+        arrow = "<-" if self.mode == "M" else "<~"
         for pat, term in reversed(binds):
-            out = "%s <- %s ;;\n%s" % (pat, term, out)
+            out = "%s %s %s ;;\n%s" % (pat, arrow, term, out)
         return out
 
     def stmts(self, body, k, returns_value):
@@ -431,7 +447,7 @@ class Translator:
         if not body:
             if k is not None:
                 return k
-            return "ret PNone" if returns_value else "ret tt"
+            return self.ret("PNone" if returns_value else "tt")
         st, rest = body[0], body[1:]
         R = lambda: self.stmts(rest, k, returns_value)
 
@@ -441,9 +457,9 @@ class Translator:
             return R()
         if isinstance(st, ast.Return):
             if st.value is None:
-                return "ret PNone" if returns_value else "ret tt"
+                return self.ret("PNone" if returns_value else "tt")
             b, t = self.expr(st.value)
-            return self.wrap(b, "ret %s" % t)
+            return self.wrap(b, self.ret(t))
         if isinstance(st, ast.Raise):
             return self.raise_(st)
         if isinstance(st, ast.If):
@@ -485,13 +501,13 @@ class Translator:
         self.pure = False
         e = st.exc
         if isinstance(e, ast.Name) and e.id == "NotImplementedError":
-            return "raise NotImplementedError"
+            return self.raise_kw() + " NotImplementedError"
         if (isinstance(e, ast.Call) and isinstance(e.func, ast.Name) and len(e.args) == 1
                 and isinstance(e.args[0], ast.Constant) and isinstance(e.args[0].value, str)):
             if e.func.id == "HERAError":
-                return "raise (HERAError %s)" % coq_string(e.args[0].value)
+                return self.raise_kw() + " (HERAError %s)" % coq_string(e.args[0].value)
             if e.func.id == "RuntimeError":
-                return "raise RuntimeError"
+                return self.raise_kw() + " RuntimeError"
         raise Unsupported(st, "raise of unsupported exception")
 
     def attr_setter(self, tgt):
@@ -673,7 +689,8 @@ def translate_function(fn, coqname, tr, params, extra_params="", force_monadic=F
         # re-translate purely: strip `ret`
         text = pure_body(fn, tr)
         return ("Definition %s %s%s : pv :=\n%s.\n" % (coqname, extra_params, ps, text), True, True)
-    return ("Definition %s %s%s : M %s :=\n%s.\n" % (coqname, extra_params, ps, rty, body), False, returns_value)
+    mon = "M" if tr.mode == "M" else "res"
+    return ("Definition %s %s%s : %s %s :=\n%s.\n" % (coqname, extra_params, ps, mon, rty, body), False, returns_value)
 
 
 def pure_body(fn, tr):
